@@ -259,4 +259,44 @@ theorem column_loop (w : Nat → Nat → Int) (T : Ties) (x : List Nat) (m n j q
         obtain ⟨a', e1, e2, e3, e4⟩ := h2
         exact ⟨a', e1, e2, e3, e4⟩
 
+/-! ### the reset loop of a column: `for i in 1..=m { self.S[curr][i] = MIN_SCORE; }` -/
+
+theorem reset_step (w : Nat → Nat → Int) (iT dT snT sn0T : Int → Int → Bool) (a : Aligner) (c i : Nat) (l : List Int)
+    (hS2 : a.S.length = 2) (hc : c < 2) (hl : a.S.getD c [] = l) (hi : i < l.length) :
+    custom_for4 w iT dT snT sn0T c a i = .ok { a with S := a.S.set c (l.set i minScore) } := by
+  have e1 : Rs.idx a.S c = .ok l := by rw [idxD _ _ (by omega)]; exact congrArg Res.ok hl
+  unfold custom_for4
+  simp only [e1, setIdx_ok' _ _ _ hi, setIdx_ok' a.S c _ (by omega), Res.pure_eq_ok, Res.ok_bind, minScore_eq]
+
+/-- the translated reset loop over `i .. i + k` overwrites exactly the entries `S[curr][i .. i + k)` with `MIN_SCORE` -/
+theorem reset_loop (w : Nat → Nat → Int) (iT dT snT sn0T : Int → Int → Bool) (c : Nat) (hc : c < 2) :
+    ∀ (k i : Nat) (a : Aligner) (l : List Int), a.S.length = 2 → a.S.getD c [] = l → i + k ≤ l.length →
+      ∃ l', List.foldlM (custom_for4 w iT dT snT sn0T c) a (List.range' i k) = .ok { a with S := a.S.set c l' } ∧
+        l'.length = l.length ∧ (∀ t, i ≤ t → t < i + k → l'.getD t 0 = minScore) ∧
+        (∀ t, (t < i ∨ i + k ≤ t) → l'.getD t 0 = l.getD t 0) := by
+  intro k
+  induction k with
+  | zero =>
+    intro i a l hS2 hl hik
+    refine ⟨l, ?_, rfl, fun t h1 h2 => by omega, fun t _ => rfl⟩
+    simp only [List.range'_zero, List.foldlM_nil, Res.pure_eq_ok]
+    rw [← hl]
+    congr 1
+    cases a
+    simp only [Aligner.mk.injEq, true_and, and_true]
+    exact (set_getD_self _ _ _).symm
+  | succ k ih =>
+    intro i a l hS2 hl hik
+    have h1 := reset_step w iT dT snT sn0T a c i l hS2 hc hl (by omega)
+    obtain ⟨l', e1, e2, e3, e4⟩ := ih (i + 1) { a with S := a.S.set c (l.set i minScore) } (l.set i minScore)
+      (by simp [hS2]) (getD_set_self _ _ _ _ (by omega)) (by rw [List.length_set]; omega)
+    refine ⟨l', ?_, by rw [e2, List.length_set], ?_, ?_⟩
+    · simp only [List.range'_succ, List.foldlM_cons, h1, Res.ok_bind, e1, List.set_set]
+    · intro t ht1 ht2
+      by_cases h : t = i
+      · subst h; rw [e4 t (Or.inl (by omega)), getD_set_self _ _ _ _ (by omega)]
+      · exact e3 t (by omega) (by omega)
+    · intro t ht
+      rw [e4 t (by omega), getD_set_other _ _ _ _ _ (by omega)]
+
 end RbV.Thm.GenSrcPwColumn
